@@ -3,4 +3,6 @@
 
 pub mod bfs;
 pub mod monitors;
+pub mod sched;
+pub mod threads;
 pub mod world;
